@@ -75,6 +75,7 @@ GUARDS = {
     'other.is_Function and other.func == tanh and (other.args[0] == t)': 'tanh',
     'other.is_Mul and other.args[0] == t and other.args[1].is_Pow and (other.args[1].args[1] == -1) and other.args[1].args[0].is_Add and (not (other.args[1].args[0].args[0] / t).has(t)) and (not other.args[1].args[0].args[1].has(t))': 'tratio1',
     'other.is_Mul and other.args[0] == t and other.args[1].is_Pow and (other.args[1].args[1] == -1) and other.args[1].args[0].is_Add and (not (other.args[1].args[0].args[1] / t).has(t)) and (not other.args[1].args[0].args[0].has(t))': 'tratio2',
+    '(b / a).is_negative': 'tration',
     'expr == t * DiracDelta(t, 1)': 'tdelta1',
     'scale != 1 or shift != 0': 'R_simshift',
     'shift != 0': 'S_shiftnz',
@@ -272,6 +273,12 @@ def entry_pid(pids):
     if not p:
         return 'O_sympy'                 # final fall-through
     last = p[-1]
+    if last == 'tration':
+        # the b/a < 0 case inside one of the two t/(a t - j b) branches; the return after it is the
+        # b/a > 0 (or sign unknown) case and keeps the pattern id of the branch
+        if len(p) < 2 or p[-2] not in ('tratio1', 'tratio2'):
+            raise Untranslatable('(b / a).is_negative outside a t/(a t - j b) branch')
+        return p[-2] + 'n'
     if last == 'S_table':
         return 'O_sympy_table'           # punt at the end of the table block
     if last == 'trap' :
